@@ -68,14 +68,25 @@ AREAS.append({
     "error_type": "(String × String)",
     "doc": """
 `tokio::io::Error::new(kind, msg)` is the pair `(kind, msg)`; `format!` is its template string
-(arguments not interpolated).""",
+(arguments not interpolated). `NetworkMessage` is its protobuf encoding (`List UInt8`:
+`encoded_len` = its length, `encode(buf)` appends it), `u64::to_be_bytes` = `Codec.encodeBE 8`,
+`Vec::write_all` appends.""",
+    "imports": ["RactorModel.Model.RustSem", "RactorModel.Model.Codec"],
     "calls": {"Error::new": ("({0}, {1})", None)},
     "paths": {"ErrorKind::InvalidData": ('"InvalidData"', "String")},
+    "types": {"NetworkMessage": "(List UInt8)", "u8": "UInt8"},
+    "methods": [
+        {"name": "encoded_len", "on": "NetworkMessage", "lean": "{0}.length", "ty": "usize"},
+        {"name": "to_be_bytes", "on": "u64", "lean": "(Codec.encodeBE 8 {0} : List UInt8)", "ty": "Vec<u8>"},
+    ],
+    "mut_methods": {"write_all": "{0} ++ {1}"},
+    "mutarg_methods": {"encode": "{1} ++ {0}"},
     "consts": [{"name": "FRAME_READ_CHUNK_SIZE", "theorem": "C19.generated_frame_constants"},
                {"name": "DEFAULT_MAX_INBOUND_FRAME_SIZE", "file": "ractor_cluster/src/node.rs",
                 "theorem": "C19.generated_frame_constants"}],
     "fns": [
         {"container": None, "name": "checked_frame_length", "theorem": "C19.generated_checked_frame_length_eq_model"},
+        {"container": None, "name": "encode_network_message", "theorem": "C19.generated_encode_network_message_eq_model"},
     ],
 })
 
@@ -152,6 +163,17 @@ the word arithmetic of each step. `MessageAdmission(self)` (the ticket) is `()`,
         {"container": "ActorProperties", "name": "drain", "lean": "ActorProperties.drain_status_update", "mode": "closure_arg",
          "method": "fetch_update", "closure_params": ["u8"], "closure_ret": "Option<u8>",
          "theorem": "C07.generated_drain_status_update_eq_model"},
+        {"container": "ActorProperties", "name": "send_message_unchecked", "lean": "ActorProperties.send_rejects_status",
+         "mode": "if_condition", "index": 0, "bind": [["status", "ActorStatus"]],
+         "theorem": "C07.generated_send_status_check_eq_model"},
+        {"container": "ActorCell", "name": "set_status", "file": "ractor/src/actor/actor_cell.rs",
+         "lean": "ActorCell.set_status_runs_cleanup", "mode": "if_condition", "mentions": "Stopping",
+         "bind": [["status", "ActorStatus"], ["previous_status", "ActorStatus"]],
+         "properties": ["C06"], "theorem": "C06.generated_set_status_cleanup_condition_eq_model"},
+        {"container": "ActorCell", "name": "set_status", "file": "ractor/src/actor/actor_cell.rs",
+         "lean": "ActorCell.set_status_notifies", "mode": "if_condition", "mentions": "Stopped",
+         "bind": [["status", "ActorStatus"], ["previous_status", "ActorStatus"]],
+         "properties": ["C06"], "theorem": "C06.generated_set_status_notify_condition_eq_model"},
         {"container": "ActorCell", "name": "terminate", "file": "ractor/src/actor/actor_cell.rs", "lean": "ActorCell.terminate_kills",
          "mode": "if_condition", "index": 0, "bind": [["actor", "ActorCell"]],
          "properties": ["C05"], "theorem": "C05.generated_terminate_kill_condition_eq_model"},
